@@ -8,7 +8,7 @@ def check(run, tier, seed, replay=None):
         import C14
         vlib.std_proof_stage(run, "C04")
         vlib.build_harness()
-        C14.sliced_extra(run, tier, seed, "fault", ID_SLICE, replay)
+        C14.sliced_extra(run, tier, seed, "fault", ID_SLICE, replay, ID_SLICE_EQ)
         return
     setcheck.set_check(run, "C04", tier, seed, replay, 1200, 20000, "judge04g",
                        "C04 delete issued before later phases are gone, or finalizer removed / Archived=True reported while objects are still controlled",
@@ -19,8 +19,11 @@ def check(run, tier, seed, replay=None):
                        phase_scs=pc.teardown_table(tier) + pc.random_teardowns(seed + 4, 300 if tier == "quick" else 5000))
     # additive: objects that live in ObjectSlices (machinery and theorems of C14, props/C14.v C14_teardown_read_fault_inert)
     import C14
-    C14.sliced_extra(run, tier, seed, "fault", ID_SLICE)
+    C14.sliced_extra(run, tier, seed, "fault", ID_SLICE, None, ID_SLICE_EQ)
 
 
 ID_SLICE = ("C04 finalizer removed / Archived=True reported / members deleted although a slice of the ObjectSet could not be read "
             "(read error treated as 'slice gone'): the slice's objects are still there and controlled")
+ID_SLICE_EQ = ("C04 a deleted / archived ObjectSet referencing ObjectSlices is not torn down like the ObjectSet with the objects of its "
+               "existing slices inline: objects of a slice are left behind (finalizer removed / Archived=True while still controlled) "
+               "or deleted out of order")
